@@ -239,7 +239,7 @@ func run(c *Case) (fail *report.Failure, out *outcome) {
 		return nil, out
 	}
 	be := gossipbackend.NewBackend(bv.lib, c.ClockMs)
-	mctx := gossipmodel.NewCtx(bv.ref, c.ClockMs)
+	mctx := gossipmodel.NewCtx(bv.rx, c.ClockMs)
 	out.fork, out.target, out.steps, out.tag = pl.fork, pl.target, len(pl.steps), pl.tag
 	topic := c.Msg.Topic
 	id := c.Msg.Corrupt
